@@ -295,8 +295,11 @@ char * path_from_dir_base(const char * dir, const char * base) {
 	// We have a directory and relative path
 	path = d_string_new(dir);
 
-	// Ensure that folder ends in separator
-	add_trailing_sep(path);
+	// Ensure that folder ends in separator -- an empty folder is the
+	// working directory, not the root of the file system
+	if (path->currentStringLength > 0) {
+		add_trailing_sep(path);
+	}
 
 	// Append filename (if present)
 	if (base) {
